@@ -185,6 +185,24 @@ def lean_sources():
                 yield os.path.join(base, f)
 
 
+def module_closure(module):
+    """source files of the local modules (LasioModel.*, LasioProofs.*) the given module transitively imports, itself included"""
+    seen, todo, out = set(), [module], []
+    while todo:
+        m = todo.pop()
+        if m in seen:
+            continue
+        seen.add(m)
+        path = os.path.join(LEAN, *m.split(".")) + ".lean"
+        if not os.path.exists(path):
+            continue
+        out.append(path)
+        for imp in re.findall(r"^import\s+(\S+)", open(path, encoding="utf-8").read(), flags=re.M):
+            if imp.split(".")[0] in ("LasioModel", "LasioProofs"):
+                todo.append(imp)
+    return out
+
+
 def strip_comments(src):
     src = re.sub(r"/-.*?-/", "", src, flags=re.S)
     return re.sub(r"--.*", "", src)
@@ -213,7 +231,7 @@ def audit(run, module, thorough=False):
     ns = re.findall(r"^namespace\s+(\S+)", src, flags=re.M)
     prefix = (ns[0] + ".") if ns else ""
     run.theorems = names
-    for p in lean_sources():
+    for p in module_closure(module):
         if FORBIDDEN.search(strip_comments(open(p, encoding="utf-8").read())):
             raise InfraError("forbidden construct (sorry/admit/axiom/native_decide/...) in " + p)
     os.makedirs(os.path.join(LEAN, ".lake", "audit"), exist_ok=True)
